@@ -1384,10 +1384,12 @@ theorem consistent_of_empty (s : State) (h1 : s.files = []) (h2 : s.proofs = [])
 
 /-! ### consistency along whole executions -/
 
-/-- what happens on chain: a delivered message, or the begin-blocker -/
+/-- what happens on chain: a delivered message, the begin-blocker, or a governance change of the
+module parameters -/
 inductive Event where
   | msg (h now : Int) (op : Op)
   | block (h now : Int)
+  | setParams (p : Params)
 
 /-- `none` = the message returned an error (dropped) resp. the begin-blocker panicked -/
 def applyEvent (s : State) : Event → Option State
@@ -1396,6 +1398,7 @@ def applyEvent (s : State) : Event → Option State
     match beginBlock s h now with
     | .ok s' => some s'
     | .error _ => none
+  | .setParams p => some { s with params := p }
 
 /-- `Consistent` is an invariant of every execution -/
 theorem consistent_run (evs : List Event) : ∀ (s s' : State), Consistent s →
@@ -1419,6 +1422,10 @@ theorem consistent_run (evs : List Event) : ∀ (s s' : State), Consistent s →
         cases h1
         exact consistent_beginBlock hc hb
       · cases h1
+    | setParams p =>
+      simp only [applyEvent, Option.some.injEq] at h1
+      subst h1
+      exact ⟨hc.wf, hc.key, hc.listed, hc.record, hc.form⟩
 
 end Storage
 end Canine
